@@ -30,7 +30,7 @@ class C06(PropBase):
             "(damage kind, PDU kind, position of the damaged PDU in its chunk, receive path) tuples of the run")
     ASSUMPTIONS = ["a call that raises ProtocolError accounts for everything delivered (the class of the error is C05's business)",
                    "the framer in simldap/ber.py is the arbiter of 'complete outer unit' (X.690 definite lengths, any length-of-length)"]
-    RUNS = {"quick": 60000, "thorough": 600000}
+    RUNS = {"quick": 60000, "thorough": 1500000}
     STEPS = {"quick": 300, "thorough": 300}
     REQUIRED_REACH = ("damaged_alone_in_chunk", "damaged_followed_by_intact_same_chunk", "damaged_split_across_calls",
                       "damaged_on_residue_path", "damaged_on_direct_path", "damaged_but_still_decodes", "error_raised_for_damaged",
